@@ -411,4 +411,250 @@ theorem parseLoop_cases (specs : List TSpec) (ln : Bool) (args : List Str) :
         rw [parseLoop_cons, hop]
 
 
+/-- the single-letter arguments one faultless option argument is rewritten to -/
+def singlesOf (specs : List TSpec) (a : Str) : List Str :=
+  match shape a with
+  | .group negate letters => letters.map (fun c => [signChar negate, c])
+  | .long negate name =>
+    (match denotes specs negate name with
+     | some s => [[signChar negate, s.short]]
+     | none => [a])
+  | _ => [a]
+
+theorem canon_cons (specs : List TSpec) (ln : Bool) (a : Str) (rest : List Str) :
+    canon specs ln (a :: rest) =
+      if (optionArg specs ln a).isSome then singlesOf specs a ++ canon specs ln rest else a :: rest := by
+  cases hs : shape a with
+  | separator => simp [canon, optionArg, hs]
+  | operand => simp [canon, optionArg, hs]
+  | group negate letters =>
+    by_cases hall : letters.all (letterOk specs negate) = true <;> simp [canon, optionArg, singlesOf, hs, hall]
+  | long negate name =>
+    cases ln with
+    | false => simp [canon, optionArg, hs]
+    | true => cases hd : denotes specs negate name <;> simp [canon, optionArg, singlesOf, hs, hd]
+
+theorem findShort_some {specs : List TSpec} {c : Char} {s : TSpec} (h : findShort specs c = some s) :
+    s ∈ specs ∧ s.short = c := by
+  unfold findShort at h
+  have h1 := List.mem_of_find?_eq_some h
+  have h2 := List.find?_some h
+  simp at h2
+  exact ⟨h1, h2⟩
+
+theorem single_shape {negate : Bool} {c : Char} (hc : c ≠ signChar negate) :
+    shape [signChar negate, c] = .group negate [c] := by
+  cases negate <;> simp_all [shape, signChar]
+
+theorem single_optionArg {specs : List TSpec} (wf : WellFormed specs) (ln : Bool) {negate : Bool} {c : Char}
+    (h : letterOk specs negate c = true) :
+    optionArg specs ln [signChar negate, c] = some [letterOcc specs negate c] ∧ isSingle [signChar negate, c] = true := by
+  have hc : c ≠ '-' ∧ c ≠ '+' := by
+    unfold letterOk at h
+    cases hf : findShort specs c with
+    | none => simp [hf] at h
+    | some s =>
+      obtain ⟨hm, hsc⟩ := findShort_some hf
+      have := wf s hm
+      rw [hsc] at this
+      exact ⟨this.1, this.2.1⟩
+  have hne : c ≠ signChar negate := by cases negate <;> simp [signChar, hc.1, hc.2]
+  constructor
+  · simp [optionArg, single_shape hne, h]
+  · cases negate <;> simp_all [isSingle, signChar]
+
+theorem singles_spec {specs : List TSpec} (wf : WellFormed specs) {ln : Bool} {a : Str} {os : List Occ}
+    (h : optionArg specs ln a = some os) :
+    optionsOnly specs ln (singlesOf specs a) = some os ∧ ∀ x ∈ singlesOf specs a, isSingle x = true := by
+  unfold optionArg at h
+  unfold singlesOf
+  cases hs : shape a with
+  | separator => simp [hs] at h
+  | operand => simp [hs] at h
+  | group negate letters =>
+    simp only [hs] at h
+    split at h
+    · rename_i hall
+      simp at h; subst h
+      clear hs
+      induction letters with
+      | nil => simp [optionsOnly]
+      | cons c cs ih =>
+        simp only [List.all_cons, Bool.and_eq_true] at hall
+        obtain ⟨h1, h2⟩ := single_optionArg wf ln hall.1
+        obtain ⟨i1, i2⟩ := ih hall.2
+        constructor
+        · simp only [List.map_cons, optionsOnly, h1, i1]; simp
+        · intro x hx
+          simp only [List.map_cons, List.mem_cons] at hx
+          rcases hx with hx | hx
+          · subst hx; exact h2
+          · exact i2 x hx
+    · simp at h
+  | long negate name =>
+    simp only [hs] at h
+    cases ln with
+    | false => simp at h
+    | true =>
+      simp at h
+      obtain ⟨s, hd, hos⟩ := h
+      subst hos
+      simp only [hd]
+      obtain ⟨hc, hn⟩ := (denotes_some_iff _ _ _ _).1 hd
+      have hm : s ∈ specs := by
+        have : s ∈ longCandidates specs name := by rw [hc]; simp
+        unfold longCandidates at this
+        exact (List.mem_filter.1 this).1
+      have hw := wf s hm
+      have hok : letterOk specs negate s.short = true := by
+        unfold letterOk
+        rw [hw.2.2]
+        cases negate <;> cases hs' : s.attr <;> simp_all
+      obtain ⟨h1, h2⟩ := single_optionArg wf true hok
+      have hocc : letterOcc specs negate s.short = { spec := s, state := !negate } := by
+        simp [letterOcc, hw.2.2]
+      constructor
+      · simp [optionsOnly, h1, hocc]
+      · intro x hx; simp at hx; subst hx; exact h2
+
+/-- ★ the canonical spelling parses alike -/
+theorem parseLoop_canon {specs : List TSpec} (wf : WellFormed specs) (ln : Bool) (args : List Str) :
+    parseLoop specs ln (canon specs ln args) = parseLoop specs ln args := by
+  induction args with
+  | nil => simp [canon]
+  | cons a rest ih =>
+    rw [canon_cons]
+    cases ho : optionArg specs ln a with
+    | none => simp
+    | some os =>
+      simp only [Option.isSome_some, if_true]
+      rw [parseLoop_after_options (singles_spec wf ho).1, ih, parseLoop_optionArg ho]
+
+theorem isSingle_shape {a : Str} (h : isSingle a = true) : shape a ≠ .operand ∧ a ≠ dashdash ∧ shape a ≠ .separator := by
+  match a with
+  | [] => simp [isSingle] at h
+  | [c] => simp [isSingle] at h
+  | c0 :: c1 :: c2 :: cs => simp [isSingle] at h
+  | [sg, c] =>
+    simp [isSingle] at h
+    obtain ⟨h1, h2⟩ := h
+    rcases h1 with h1 | h1 <;> subst h1 <;> simp [shape, dashdash, h2]
+
+theorem isCanonical_singles (l : List Str) (hl : ∀ x ∈ l, isSingle x = true) (v : List Str) :
+    isCanonical (l ++ v) = isCanonical v := by
+  induction l with
+  | nil => rfl
+  | cons x xs ih =>
+    have hx := hl x (by simp)
+    simp only [List.cons_append, isCanonical, hx, if_true]
+    exact ih (fun y hy => hl y (by simp [hy]))
+
+theorem prepend_ok {os : List Occ} {r : Except PErr (List Occ × List Str)} {q : List Occ × List Str}
+    (h : prepend os r = .ok q) : ∃ q', r = .ok q' := by
+  cases r with
+  | error e => simp [prepend] at h
+  | ok q' => exact ⟨q', rfl⟩
+
+/-- an accepted vector has a canonical canonical spelling -/
+theorem canon_canonical {specs : List TSpec} (wf : WellFormed specs) (ln : Bool) (args : List Str)
+    {r : List Occ × List Str} (h : parseLoop specs ln args = .ok r) :
+    isCanonical (canon specs ln args) = true := by
+  induction args generalizing r with
+  | nil => simp [canon, isCanonical]
+  | cons a rest ih =>
+    rw [canon_cons]
+    cases ho : optionArg specs ln a with
+    | some os =>
+      simp only [Option.isSome_some, if_true]
+      rw [isCanonical_singles _ (singles_spec wf ho).2]
+      rw [parseLoop_optionArg ho] at h
+      obtain ⟨q', hq⟩ := prepend_ok h
+      exact ih hq
+    | none =>
+      simp only [Option.isSome_none]
+      cases hd : argDefect specs ln a with
+      | some e => rw [parseLoop_defect hd] at h; simp at h
+      | none =>
+        rcases optionArg_of_no_defect hd with ⟨o1, h1⟩ | hsep | hop
+        · rw [ho] at h1; simp at h1
+        · have : a = dashdash := (shape_separator_iff a).1 hsep
+          subst this
+          simp [isCanonical, isSingle, dashdash]
+        · have hns : isSingle a = false := by
+            cases hsg : isSingle a with
+            | false => rfl
+            | true => exact absurd hop (isSingle_shape hsg).1
+          simp [isCanonical, hns, hop]
+
+/-- ★ on a canonical vector the code's parser is the simple reader -/
+theorem read_eq_parseLoop (specs : List TSpec) (ln : Bool) (v : List Str) (h : isCanonical v = true) :
+    read specs v = parseLoop specs ln v := by
+  induction v with
+  | nil => simp [read, parseLoop]
+  | cons a rest ih =>
+    simp only [isCanonical] at h
+    by_cases hsg : isSingle a = true
+    · simp only [hsg, if_true] at h
+      match a, hsg with
+      | [sg, c], hsg =>
+        simp [isSingle] at hsg
+        obtain ⟨h1, h2⟩ := hsg
+        have hne : [sg, c] ≠ ['-', '-'] := by
+          intro heq; simp at heq; rcases h1 with h1 | h1 <;> simp_all
+        have hshape : shape [sg, c] = .group (sg = '+') [c] := by
+          rcases h1 with h1 | h1 <;> subst h1 <;> simp [shape, h2]
+        rw [parseLoop_cons, hshape]
+        simp only [read, hne, if_false, h1, h2, ne_eq, not_false_eq_true, and_self, if_true, shortLoop]
+        cases hf : findShort specs c with
+        | none => simp
+        | some s =>
+          simp only []
+          by_cases hc : sg = '+' ∧ s.attr = none
+          · simp [hc]
+          · have hc' : ¬ (decide (sg = '+') = true ∧ s.attr = none) := by simpa using hc
+            simp only [hc, hc', if_false, ih h]
+    · have hsg' : isSingle a = false := by simpa using hsg
+      simp only [hsg', Bool.false_eq_true, if_false, Bool.or_eq_true, decide_eq_true_eq] at h
+      by_cases hdd : a = ['-', '-']
+      · subst hdd
+        simp [read, parseLoop, dashdash]
+      · have hop : shape a = .operand := by
+          rcases h with h | h
+          · exact absurd h hdd
+          · exact h
+        rw [parseLoop_cons, hop]
+        unfold read
+        simp only [hdd, if_false]
+        split
+        · rename_i sg c
+          have : ¬ ((sg = '-' ∨ sg = '+') ∧ c ≠ sg) := by
+            intro hcond
+            simp [isSingle] at hsg'
+            rcases hcond.1 with h1 | h1 <;> simp_all
+          simp [this]
+        · rfl
+
+
+theorem filter_refine {α : Type} (q r : α → Bool) (l : List α) (s : α) (hq : l.filter q = [s])
+    (hrq : ∀ t, r t = true → q t = true) (hs : r s = true) : l.filter r = [s] := by
+  induction l with
+  | nil => simp at hq
+  | cons a l ih =>
+    cases hqa : q a with
+    | true =>
+      simp only [List.filter_cons, hqa, if_true, List.cons.injEq] at hq
+      obtain ⟨rfl, hnil⟩ := hq
+      have : l.filter r = [] := by
+        rw [List.filter_eq_nil_iff] at hnil ⊢
+        intro t ht hrt
+        exact hnil t ht (hrq t hrt)
+      simp [List.filter_cons, hs, this]
+    | false =>
+      have hra : r a = false := by
+        cases hr : r a with
+        | false => rfl
+        | true => rw [hrq a hr] at hqa; cases hqa
+      simp only [List.filter_cons, hqa, hra] at hq ⊢
+      exact ih hq
+
 end YashModel.Args.Typeset
